@@ -68,7 +68,7 @@ def t1_analyze(F, res):
             for fd in v["fields"]:
                 if (short, fd["name"]) in grow:
                     rows[(f["path"], v["name"], fd["name"])] = grow[(short, fd["name"])]
-        res.add(e3.check_impl_method(F, f, st, fam, "ref", "T1", rows))
+        res.add(e3.check_impl_method(F, f, st, fam, "ref", "T1", rows, must_paths=False))  # a bailing analyzer returns a report that carries the error: not a silent skip
     res.count("Analyzable::analyze impls on AST types", n)
     res.floor("Analyzable::analyze impls on AST types", n, 55)
     res.floor("AST family types", len(fam), 55)
